@@ -373,6 +373,55 @@ func kindType(k reflect.Kind) reflect.Type {
 }
 
 // interesting64 lists every form boundary +-3 and every power of two +-1.
+// encLongRef: the shortest long form, written from the ranges of the document.
+func encLongRef(v int64) []byte {
+	switch {
+	case v >= -8 && v <= 15:
+		return []byte{byte(0xe0 + v)}
+	case v >= -2048 && v <= 2047:
+		return []byte{byte(0xf8 + (v >> 8)), byte(v)}
+	case v >= -262144 && v <= 262143:
+		return []byte{byte(0x3c + (v >> 16)), byte(v >> 8), byte(v)}
+	case v >= math.MinInt32 && v <= math.MaxInt32:
+		return []byte{0x59, byte(v >> 24), byte(v >> 16), byte(v >> 8), byte(v)}
+	}
+	return []byte{'L', byte(v >> 56), byte(v >> 48), byte(v >> 40), byte(v >> 32), byte(v >> 24), byte(v >> 16), byte(v >> 8), byte(v)}
+}
+
+var c07CrossTM = func() map[string]reflect.Type {
+	tm, _ := hessian.ExtractTypeNameMap(&zoo.IntFields{})
+	tm["[long"] = reflect.TypeOf([]int64{})
+	tm["[int"] = reflect.TypeOf([]int32{})
+	return tm
+}()
+
+// checkCrossWidth: a peer that chooses the number width by value sends a 32-bit integer in int form into a
+// list or field the Go side declares 64 bits wide, and in long form into a list declared 32 bits wide: the same
+// number must arrive. (For struct FIELDS the unchanged tree refuses a value of the other width - a declared-type
+// mismatch between the peers, which the statement does not cover - and nothing is demanded there.)
+func checkCrossWidth(v int32) string {
+	i, l := encInt(v), encLongRef(int64(v))
+	cases := []struct {
+		what string
+		in   []byte
+		want interface{}
+	}{
+		{"int-form elements in a typed list \"[long\"", append(append(append([]byte{0x73, 0x05, '[', 'l', 'o', 'n', 'g'}, i...), l...), i...), []int64{int64(v), int64(v), int64(v)}},
+		{"long-form elements in a typed list \"[int\"", append(append(append([]byte{0x73, 0x04, '[', 'i', 'n', 't'}, l...), i...), l...), []int32{v, v, v}},
+	}
+	for _, c := range cases {
+		var out interface{}
+		var err error
+		if pv, st := guard(func() { out, err = hessian.ToObject(c.in, c07CrossTM) }); pv != nil || err != nil {
+			return fmt.Sprintf("%s (%x): decode failed: %v %v [%s]", c.what, c.in, err, pv, st)
+		}
+		if !reflect.DeepEqual(out, c.want) {
+			return fmt.Sprintf("%s (%x): decoded %T %v, want %v", c.what, c.in, out, out, c.want)
+		}
+	}
+	return ""
+}
+
 func interesting64() []int64 {
 	var out []int64
 	bounds := []int64{0, -16, 47, -8, 15, -2048, 2047, -262144, 262143, math.MinInt32, math.MaxInt32, math.MinInt64, math.MaxInt64,
@@ -405,6 +454,9 @@ func TestC07(t *testing.T) {
 			}
 			if v >= math.MinInt32 && v <= math.MaxInt32 {
 				if msg := checkInt32(rig, int32(v)); msg != "" {
+					t.Fatalf("replay: %s", msg)
+				}
+				if msg := checkCrossWidth(int32(v)); msg != "" {
 					t.Fatalf("replay: %s", msg)
 				}
 			}
@@ -446,6 +498,10 @@ func TestC07(t *testing.T) {
 				fail32(int32(v), msg)
 			}
 			r.Eval()
+			if msg := checkCrossWidth(int32(v)); msg != "" {
+				fail32(int32(v), msg)
+			}
+			r.EvalN(2)
 		}
 		n, msg := checkKinds(v, 0, false)
 		r.EvalN(int64(n))
